@@ -338,6 +338,8 @@ def _mk_ff_fn( fields ):
       return [ f"self.{prefix} <<= other.{prefix}" ], [f"self.{prefix}._flip()"]
 
   ilshift_strs = [ 'if self.__class__ is not other.__class__:',
+                   # an integer is the packed value ( reg <<= 0 )
+                   '  if isinstance( other, int ): other = _Bits( self.nbits, other )',
                    '  other = self.__class__.from_bits( other.to_bits() )']
   flip_strs = []
   for name, type_ in fields.items():
@@ -349,6 +351,7 @@ def _mk_ff_fn( fields ):
     '__ilshift__',
     [ 'self', 'other' ],
     ilshift_strs + [ "return self" ],
+    { '_Bits': Bits },
   ), _create_fn(
     '_flip',
     [ 'self' ],
@@ -421,6 +424,7 @@ def _mk_imatmul_fn( fields ):
       return [ f"self.{prefix} @= other.{prefix}" ]
 
   imatmul_strs = [ 'if self.__class__ is not other.__class__:',
+                   '  if isinstance( other, int ): other = _Bits( self.nbits, other )',
                    '  other = self.__class__.from_bits( other.to_bits() )']
   for name, type_ in fields.items():
     imatmul_strs.extend( _gen_list_imatmul_strs( type_, name ) )
@@ -429,6 +433,7 @@ def _mk_imatmul_fn( fields ):
     '__imatmul__',
     [ 'self', 'other' ],
     imatmul_strs + [ "return self" ],
+    { '_Bits': Bits },
   )
 
 #-------------------------------------------------------------------------
